@@ -165,6 +165,27 @@ def run(ctx):
     pr = [norm(c) for c in ast.walk(rows[0]) if isinstance(c, ast.Call) and norm(c.func) == "print"] if rows else []
     ok = len(pr) == 1 and all(x in pr[0] for x in ("{field1}", "{mini1}", "{maxi1}", "{units1}", "{field2}", "{mini2}", "{maxi2}", "{units2}"))
     ctx.check(ok, f"{P}.PARITY-PAD", sm.site, "a row prints name, min, max and units of both entries", "row print changed", key="print")
+    # LISTING: the plain listings print every name exactly once — the padded names are cut into consecutive chunks
+    # x[i:i+k] for i in range(0, len(x), k) (a partition of the list), each chunk one printed line
+    for q in ("Menu.show_species", "Menu.show_variables"):
+        sf = prog.func(ME, q, P)
+        env = rules.local_env(sf.node)
+        part = None
+        for n in walk_no_nested(sf.node):
+            if isinstance(n, ast.ListComp) and len(n.generators) == 1 and isinstance(n.generators[0].iter, ast.Call) and \
+                    norm(n.generators[0].iter.func) == "range":
+                g = n.generators[0]
+                a = [norm(x) for x in g.iter.args[:2]] + [rules.deep(x, env, sf.params) for x in g.iter.args[2:]]
+                sl = [x for x in ast.walk(n.elt) if isinstance(x, ast.Subscript) and isinstance(x.slice, ast.Slice)]
+                if len(a) == 3 and len(sl) == 1 and isinstance(g.target, ast.Name):
+                    i, x = g.target.id, norm(sl[0].value)
+                    lo = norm(sl[0].slice.lower) if sl[0].slice.lower is not None else None
+                    hi = rules.deep(sl[0].slice.upper, env, sf.params) if sl[0].slice.upper is not None else None
+                    part = a[0] == "0" and a[1] == f"len({x})" and lo == i and hi == f"{i} + {a[2]}" and sl[0].slice.step is None
+        ctx.decide(bool(part), part is not None, f"{P}.LISTING", sf.site,
+                   "names are printed in consecutive chunks x[i:i+k], i = 0, k, 2k, …: every name exactly once",
+                   "the chunks of the listing are not x[i:i+k] for i in range(0, len(x), k): names are dropped or repeated",
+                   key="chunks", why_unknown="listing not built by range-stepped chunks")
     # menu(): modes
     mu = prog.func(ME, "Menu.menu", P)
     uenv = rules.local_env(mu.node)
